@@ -89,6 +89,7 @@ def spec_strategy(draw, families=("LAN", "ROUTED", "DMZ"), allow_off=True, max_h
             "red_start": draw(st.integers(0, 4)),
             "red_freq": draw(st.integers(1, 4)),
             "extra_blue": draw(st.booleans()),
+            "blue_last": draw(st.booleans()),
             "thresholds": draw(st.booleans()),
         },
         "acl_deny": draw(st.booleans()),
@@ -519,6 +520,7 @@ def build_agents(spec, hosts, actions, obs) -> List[Dict]:
         agents.append({"ref": "attacker", "team": "RED", "type": t, "agent_settings": st_,
                        "action_space": {"action_map": {0: {"action": "do-nothing", "options": {}}}},
                        "reward_function": {"reward_components": [{"type": "dummy"}]}})
-    if ag["extra_blue"]:
-        pass
+    if ag.get("blue_last"):
+        # the shipped scenarios declare the defender LAST, so green and red act before blue within a step
+        agents = agents[1:] + agents[:1]
     return agents
